@@ -652,7 +652,94 @@ def _assignment_write_scope(ctx):
                 '(found %d)' % sites, rule='C19.3')
 
 
+def _record_defaults(ctx):
+    """C19.1: a reservation record that lacks one of the sizes counts as
+    zero in that dimension only: CellAllocation.from_entry gives each of
+    cpu / memory / disk its default under the test that *that* key is
+    missing.  One test for all three zeroes a stored memory because cpu is
+    absent (the record then reads 0G and the partition is over-committed),
+    or leaves disk missing because cpu is present (every check raises)."""
+    mod = ctx.index.module('treadmill.admin._ldap')
+    cls = mod.classes.get('CellAllocation')
+    func = cls.methods.get('from_entry') if cls else None
+    ctx.require(func is not None, 'CellAllocation.from_entry', rule='C19.1')
+    graph = ctx.cfg(func)
+    nz = N.Normaliser()
+    facts = N.must_facts(graph, nz)
+    seen = {}
+    for node in graph.nodes:
+        if node.kind != 'stmt':
+            continue
+        keys = []
+        stmt = node.ast
+        if isinstance(stmt, ast.Assign) and isinstance(
+                stmt.targets[0], ast.Subscript) and isinstance(
+                    stmt.targets[0].slice, ast.Constant) and \
+                isinstance(stmt.value, ast.Constant):
+            keys = [(N.txt(stmt.targets[0].value),
+                     stmt.targets[0].slice.value)]
+        for call in C.node_calls(node):
+            if K.is_meth(call, 'update', 'setdefault') and call.args and \
+                    isinstance(call.args[0], ast.Dict):
+                keys += [(K.recv_text(call), k.value)
+                         for k in call.args[0].keys
+                         if isinstance(k, ast.Constant)]
+        for recv, key in keys:
+            if key not in ('cpu', 'memory', 'disk'):
+                continue
+            ok = any(f.key[0] == 'in' and not f.key[3] and
+                     f.key[1] == repr(key) and f.key[2] == recv
+                     for f in facts[node])
+            seen[key] = seen.get(key, True) and ok
+            ctx.ob('C19.1', func, node, ok,
+                   "the default of %r is given under %r not in %s" % (
+                       key, key, recv),
+                   construct='default of %s under its own test' % key)
+    ctx.require(set(seen) == {'cpu', 'memory', 'disk'},
+                'defaults of cpu / memory / disk in from_entry (found %s)' %
+                sorted(seen), rule='C19.1', func=func)
+
+
+def _cpu_spelling(ctx):
+    """C19.5: a cpu value is normalised before its suffix is looked at:
+    cpu_units strips surrounding white space first ('200% ' from a stored
+    record, '200%\\n' from a request) - int() tolerates the white space
+    only once the percent sign is gone, so the other order raises
+    ValueError in every check that meets such a value."""
+    utils = ctx.index.module('treadmill.utils')
+    func = utils.functions.get('cpu_units')
+    ctx.require(func is not None, 'utils.cpu_units', rule='C19.5')
+    tests = [c for c in K.calls(func.node)
+             if K.is_meth(c, 'endswith') and c.args and
+             N.txt(c.args[0]) in ("'%'", '"%"')]
+    ctx.require(tests, "test of the '%' suffix in cpu_units", rule='C19.5',
+                func=func)
+    graph = ctx.cfg(func)
+    rdefs = K.reaching_defs(graph)
+    for call in tests:
+        src = K.rtxt(func, K.recv(call))
+        recv = K.recv(call)
+        if isinstance(recv, ast.Name):
+            # the definitions of the local that reach the test
+            at = [n for n in graph.nodes if any(
+                c is call for c in C.node_calls(n)) or (
+                    n.kind == 'test' and n.ast is not None and any(
+                        sub is call for sub in ast.walk(n.ast)))]
+            vals = [v for n in at for _d, v in K.def_sites(
+                graph, rdefs, n, recv.id)]
+            if vals:
+                src = ' | '.join(N.txt(v) for v in vals)
+                if not all('.strip()' in N.txt(v) for v in vals):
+                    src = src.replace('.strip()', '.strip ()')
+        ctx.ob('C19.5', func, call, '.strip()' in src,
+               'the percent suffix is tested on the stripped value (%s)' %
+               src[:50], construct='cpu value stripped before the suffix '
+                                   'test')
+
+
 def check(ctx):
+    _record_defaults(ctx)
+    _cpu_spelling(ctx)
     _assignment_write_scope(ctx)
     mod = ctx.index.module(API)
     chk, dims = _dimensions(ctx, mod)
